@@ -3,6 +3,7 @@ from __future__ import annotations
 
 import copy
 import json
+import re
 import traceback
 from pathlib import Path
 from typing import Any, Dict, List, Optional, Tuple
@@ -41,41 +42,99 @@ MANIFEST = {
 }
 MODULES = ["PrimaiteModel.Props.C20"]
 EXE = "drv_c20"
-KEEP = ("action_probabilities",)  # F-29 (owned by C19): the order of this mapping changes behaviour; not permuted here
+KEEP = ()  # every mapping is permuted, at every level (F-29, which made `action_probabilities` order-sensitive, is repaired)
 # test assets that are not well-formed scenario files: one needs a plug-in node type, one has `agent_settings:` null
 SKIP_SHIPPED = {"bad_primaite_session", "no_nodes_links_agents_network", "extended_config", "eval_only_primaite_session"}
 
 
 # ------------------------------------------------------------------------------------------------ one scenario
-def _load(cfg: Dict):
-    """(game, None) or (None, failure-dict)."""
+def _fail_of(e: Exception) -> Dict:
+    if isinstance(e, RecursionError):
+        return {"kind": "load-raises", "exc": "RecursionError", "where": "HostARP", "msg": str(e)[:100]}
+    tb = traceback.extract_tb(e.__traceback__)[-1]
+    return {"kind": "load-raises", "exc": type(e).__name__, "where": f"{tb.filename.split('primaite/')[-1]}:{tb.name}", "msg": str(e)[:200]}
+
+
+def _build(cfg_obj: Dict):
+    """PrimaiteGame.from_config on THIS object (no copy): (game, None) or (None, failure-dict)."""
+    from primaite.game.game import PrimaiteGame
     try:
-        return scen.make_game(cfg), None
-    except RecursionError as e:
-        return None, {"kind": "load-raises", "exc": "RecursionError", "where": "HostARP", "msg": str(e)[:100]}
+        return PrimaiteGame.from_config(cfg_obj), None
     except Exception as e:
-        tb = traceback.extract_tb(e.__traceback__)[-1]
-        return None, {"kind": "load-raises", "exc": type(e).__name__, "where": f"{tb.filename.split('primaite/')[-1]}:{tb.name}",
-                      "msg": str(e)[:200]}
+        return None, _fail_of(e)
+
+
+def _load(cfg: Dict):
+    """(game, None) or (None, failure-dict); the loader works on a private copy."""
+    return _build(copy.deepcopy(cfg))
+
+
+def mutation_paths(a: Any, b: Any, path: str = "") -> List[str]:
+    """What a call did to its argument: generalised paths (list indices and integer keys dropped) of every difference."""
+    out: List[str] = []
+    if type(a) is not type(b):
+        return [f"{path}:{type(a).__name__}->{type(b).__name__}"]
+    if isinstance(a, dict):
+        for k in list(a.keys()) + [k for k in b if k not in a]:
+            kp = f"{path}/{'#' if isinstance(k, int) else k}"
+            if k not in b:
+                out.append(kp + ":removed")
+            elif k not in a:
+                out.append(kp + ":added")
+            else:
+                out += mutation_paths(a[k], b[k], kp)
+    elif isinstance(a, list):
+        if len(a) != len(b):
+            out.append(path + ":length")
+        for x, y in zip(a, b):
+            out += mutation_paths(x, y, path + "[]")
+    elif a != b:
+        out.append(path + ":changed")
+    return sorted(set(out))
 
 
 def _classify(only_impl: List[str], only_decl: List[str]) -> Dict:
-    """Signature of a declared-vs-built difference."""
+    """Signature of a declared-vs-built difference: the kind of item, and for software the option whose built value differs."""
     items = sorted({l.split()[0] for l in only_impl + only_decl})
     if items == ["sw"] and all(" n=1" not in l for l in only_impl) and all(" n=1" in l for l in only_decl):
         return {"kind": "declared-vs-built", "item": "software", "cause": "name-installed-twice"}
+    if items == ["sw"]:
+        # which software / which field: name the first differing token of the first differing line
+        for a in only_impl:
+            b = next((d for d in only_decl if d.split()[:3] == a.split()[:3]), None)
+            if b:
+                ta, tb = a.split(), b.split()
+                dif = [x.split("=")[0] for x, y in zip(ta, tb) if x != y] or ["options"]
+                return {"kind": "declared-vs-built", "item": "sw", "cause": f"{ta[2]}:{dif[0]}"}
     return {"kind": "declared-vs-built", "item": ",".join(items), "cause": "other"}
 
 
-def check_scenario(cfg: Dict, model_out: Optional[Tuple[str, str]]) -> Tuple[List[dict], Optional[List[str]]]:
-    """Implementation-side checks of one scenario; `model_out` = the driver's (build, declared) answers or None."""
+def check_scenario(cfg: Dict, model_out: Optional[Tuple[str, str]], twice: bool = True,
+                   ctx: Optional[Ctx] = None) -> Tuple[List[dict], Optional[List[str]]]:
+    """Implementation-side checks of one scenario; `model_out` = the driver's (build, declared) answers or None.
+    `twice`: the SAME mapping object is handed to the loader a second time - it must build the same simulation."""
     fails: List[dict] = []
-    game, f = _load(cfg)
+    work = copy.deepcopy(cfg)
+    snap = copy.deepcopy(work) if twice else None
+    game, f = _build(work)
     if f:
         return [f], None
     inv = R.inventory(game, cfg)
     for b in R.state_oracle(game):
         fails.append({"kind": "initial-state", "item": b.split()[0], "detail": b})
+    if twice:
+        if ctx is not None:
+            for mp in mutation_paths(snap, work):
+                ctx.count("loader-changed-its-argument:" + mp)
+        game2, f2 = _build(work)
+        if f2:
+            fails.append(dict(f2, kind="second-build-from-same-mapping-raises"))
+        else:
+            inv2 = R.inventory(game2, cfg)
+            if inv2 != inv:
+                diff = sorted(set(inv) ^ set(inv2))
+                fails.append({"kind": "second-build-from-same-mapping-differs", "item": diff[0].split()[0], "diff": diff[:6],
+                              "argument_changes": mutation_paths(snap, work)[:8]})
     if model_out is not None:
         b, d = R.split_inventory(model_out[0]), R.split_inventory(model_out[1])
         if b != inv:
@@ -87,20 +146,69 @@ def check_scenario(cfg: Dict, model_out: Optional[Tuple[str, str]]) -> Tuple[Lis
     return fails, inv
 
 
-def check_variants(cfg: Dict, inv: List[str], rng: Rng, digest_steps: int, n_variants: int = 3) -> List[dict]:
-    """Permuted / reversed / re-serialised copies must build the same inventory and (digest_steps > 0) behave identically."""
+STATE_TOKENS = re.compile(r" (wired|en|st|h)=\S+|^(node \S+ \S+) \S+")
+
+
+def mask_states(inv: List[str]) -> List[str]:
+    """Inventory without the initial-state fields (used after `reset()`, which powers every node on: F-31, not claimed)."""
+    return sorted(STATE_TOKENS.sub(lambda m: m.group(2) or "", l) for l in inv)
+
+
+def check_env_twice(cfg: Dict, inv: List[str], resets: int = 1) -> Tuple[List[dict], int]:
+    """A user-held mapping passed twice to `PrimaiteGymEnv(env_config=cfg)`: both environments hold the declared simulation, the
+    user's mapping is untouched, and after `reset()` the same items are there (states aside). Returns (failures, F-31 count)."""
+    from primaite.session.environment import PrimaiteGymEnv
+    fails: List[dict] = []
+    held = copy.deepcopy(cfg)
+    snap = copy.deepcopy(held)
+    f31 = 0
+    try:
+        for k in (1, 2):
+            env = PrimaiteGymEnv(env_config=held)
+            got = R.inventory(env.game, cfg)
+            if got != inv:
+                diff = sorted(set(got) ^ set(inv))
+                fails.append({"kind": "env-build-differs", "which": k, "item": diff[0].split()[0], "diff": diff[:6]})
+            if k == 2:
+                for r in range(resets):
+                    env.reset()
+                    after = R.inventory(env.game, cfg)
+                    if mask_states(after) != mask_states(inv):
+                        diff = sorted(set(mask_states(after)) ^ set(mask_states(inv)))
+                        fails.append({"kind": "env-reset-build-differs", "episode": r + 1, "item": diff[0].split()[0], "diff": diff[:6]})
+                    f31 += sum(1 for a, b in zip(sorted(l for l in after if l.startswith("node ")), sorted(l for l in inv if l.startswith("node "))) if a != b)
+            env.close()
+        if held != snap:
+            fails.append({"kind": "env-changed-the-users-mapping", "changes": mutation_paths(snap, held)[:8]})
+    except Exception as e:
+        fails.append(dict(_fail_of(e), kind="env-raises"))
+    return fails, f31
+
+
+def check_variants(cfg: Dict, inv: List[str], rng: Rng, digest_steps: int, n_variants: int = 3,
+                   formats: Optional[List[str]] = None) -> List[dict]:
+    """Permuted / reversed / re-serialised copies, and the formatting-only re-writings named in `formats` (anchors and aliases,
+    merge keys, comments, quoted integers), must build the same inventory and (digest_steps > 0) behave identically."""
     fails = []
     variants = [("permuted", G.permute_mappings(cfg, rng, keep=KEEP)), ("reversed", G.reverse_mappings(cfg, keep=KEEP)),
                 ("reserialised", G.reserialise(cfg, rng))][:n_variants]
+    if formats:
+        try:
+            variants += G.format_variants(cfg, rng, formats)
+        except Exception as e:  # the rig's own text generation failing is a rig problem, reported as such
+            fails.append({"kind": "format-variant-not-producible", "exc": type(e).__name__, "msg": str(e)[:160]})
     for name, v in variants:
+        # aliases make the parsed document SHARE sub-mappings: the loader gets it as parsed (deepcopy keeps the sharing)
         game, f = _load(v)
         if f:
-            fails.append({"kind": "key-order-changes-loading", "variant": name, "exc": f["exc"], "where": f["where"]})
+            fails.append({"kind": "key-order-changes-loading" if name in ("permuted", "reversed") else "formatting-changes-loading",
+                          "variant": name, "exc": f["exc"], "where": f["where"], "msg": f.get("msg", "")[:120]})
             continue
         inv2 = R.inventory(game, cfg)
         if inv2 != inv:
             diff = sorted(set(inv) ^ set(inv2))
-            fails.append({"kind": "key-order-changes-inventory", "variant": name, "item": diff[0].split()[0], "diff": diff[:6]})
+            fails.append({"kind": "key-order-changes-inventory" if name in ("permuted", "reversed") else "formatting-changes-inventory",
+                          "variant": name, "item": diff[0].split()[0], "diff": diff[:6]})
     if digest_steps > 0:
         try:
             d0 = R.trajectory_digest(cfg, 7, digest_steps)
@@ -172,13 +280,37 @@ def check_office_lan(ns: Dict) -> List[dict]:
 
 
 # ------------------------------------------------------------------------------------------------ schedules
-def check_schedule_dir(d: Path, ctx: Ctx) -> Tuple[List[str], List[str], List[dict], List[Tuple[str, Dict]]]:
-    """Real EpisodeListScheduler vs an independent assembly and vs the model's document selection."""
+def _scramble(o: Any) -> None:
+    """Do to a scenario mapping the worst a consumer may do: empty every container in it, in place."""
+    if isinstance(o, dict):
+        for v in list(o.values()):
+            _scramble(v)
+        o.clear()
+    elif isinstance(o, list):
+        for v in o:
+            _scramble(v)
+        del o[:]
+
+
+def _quiet(cfg: Dict) -> Dict:
+    io = dict(cfg.get("io_settings") or {})
+    io.update(scen.QUIET_IO)
+    cfg["io_settings"] = io
+    return cfg
+
+
+def check_schedule_dir(d: Path, ctx: Ctx, env_level: bool = True) -> Tuple[List[str], List[str], List[dict], List[Tuple[str, Dict]]]:
+    """Real EpisodeListScheduler vs an independent assembly and vs the model's document selection, used the way the environment
+    uses it: ONE scheduler object, asked for episode after episode PAST the end of the schedule, every answer handed straight to
+    `PrimaiteGame.from_config` (which may do to it what it likes) - so every combination of files is built at least twice."""
     from primaite.session.episode_schedule import build_scheduler
-    fails, cfgs = [], []
+    fails: List[dict] = []
+    cfgs: List[Tuple[str, Dict]] = []
     sch = build_scheduler(d)
-    spec = yaml.safe_load((d / "schedule.yaml").read_text())
+    loader = getattr(yaml, "CSafeLoader", yaml.SafeLoader)
+    spec = yaml.load((d / "schedule.yaml").read_text(), Loader=loader)
     table = spec["schedule"]
+    L = len(table)
     lines, expect = ["reset"], ["ok"]
     for e, names in table.items():
         lines.append(f"sched-entry {e} " + " ".join(names))
@@ -188,22 +320,98 @@ def check_schedule_dir(d: Path, ctx: Ctx) -> Tuple[List[str], List[str], List[di
         expect.append("ok")
     lines.append(f"sched-base {spec['base_scenario']}")
     expect.append("ok")
-    for n in range(0, 2 * len(table) + 1):
+    assembled: Dict[Tuple[str, ...], Dict] = {}
+
+    def want_of(names) -> Dict:
+        key = tuple(names)
+        if key not in assembled:
+            text = "\n".join([(d / f).read_text() for f in names] + [(d / spec["base_scenario"]).read_text()])
+            w = yaml.load(text, Loader=loader)
+            flat = []
+            for a in w["agents"]:
+                flat.extend(a) if isinstance(a, list) else flat.append(a)
+            w["agents"] = flat
+            assembled[key] = w
+        return copy.deepcopy(assembled[key])
+
+    # which episodes: all of 0 .. 2L in the thorough tier and for short schedules; for long ones a selection in which every
+    # combination of files is requested (and built) at least twice, the wrap-around indices L, L+1, 2L included
+    if ctx.thorough or L <= 6:
+        ns = list(range(0, 2 * L + 1))
+    else:
+        first: Dict[Tuple[str, ...], List[int]] = {}
+        for e in sorted(table):
+            first.setdefault(tuple(table[e]), []).append(e)
+        ns = sorted({occ[0] for occ in first.values()} | {(occ[1] if len(occ) > 1 else occ[0] + L) for occ in first.values()}
+                    | {L - 1, L, L + 1, 2 * L})
+    reference: Dict[Tuple[str, ...], List[str]] = {}
+    built: Dict[Tuple[str, ...], int] = {}
+    for n in ns:
+        names = table[n % L]
+        key = tuple(names)
         got = sch(n)
-        names = table[n % len(table)]
-        text = "\n".join([(d / f).read_text() for f in names] + [(d / spec["base_scenario"]).read_text()])
-        want = yaml.safe_load(text)
-        flat = []
-        for a in want["agents"]:
-            flat.extend(a) if isinstance(a, list) else flat.append(a)
-        want["agents"] = flat
-        if got != want:
-            fails.append({"kind": "schedule-assembly", "dir": d.name, "episode": n})
+        want = want_of(names)
         lines.append(f"sched {n}")
         expect.append(" ".join(list(names) + [spec["base_scenario"]]))
-        if n < len(table):
-            cfgs.append((f"{d.name}#ep{n}", got))
         ctx.count("schedule-episode")
+        if got != want:
+            fails.append({"kind": "schedule-assembly", "dir": d.name, "episode": n, "times_built_before": built.get(key, 0),
+                          "differs_at": mutation_paths(want, got)[:6]})
+            continue
+        if key not in reference:
+            g0, f0 = _build(_quiet(want_of(names)))
+            if f0:
+                fails.append(dict(f0, kind="schedule-episode-raises", dir=d.name, episode=n))
+                continue
+            reference[key] = R.inventory(g0, want)
+            cfgs.append((f"{d.name}#ep{n}", _quiet(want_of(names))))
+        # exactly what reset() does: the scheduler's own answer goes to the loader
+        game, f = _build(got)
+        ctx.count("schedule-build")
+        if f:
+            fails.append(dict(f, kind="schedule-episode-raises", dir=d.name, episode=n))
+            continue
+        inv = R.inventory(game, want)
+        built[key] = built.get(key, 0) + 1
+        if inv != reference[key]:
+            diff = sorted(set(inv) ^ set(reference[key]))
+            fails.append({"kind": "schedule-build-differs", "dir": d.name, "episode": n, "build_number": built[key],
+                          "item": diff[0].split()[0], "diff": diff[:6]})
+    ctx.count("schedule-combination-built-twice", sum(1 for v in built.values() if v >= 2))
+    ctx.count("schedule-combination", len(reference))
+    # what the scheduler hands out is the caller's to consume: wreck one answer, ask again
+    for key in list(reference)[: ctx.scale(2, 99)]:
+        n = next(e for e in sorted(table) if tuple(table[e]) == key)
+        a = sch(n)
+        b = sch(n)
+        if a is b:
+            fails.append({"kind": "schedule-hands-out-shared-object", "dir": d.name, "episode": n, "how": "same object twice"})
+            continue
+        _scramble(a)
+        c = sch(n)
+        if c != want_of(table[n]) or b != want_of(table[n]):
+            fails.append({"kind": "schedule-hands-out-shared-object", "dir": d.name, "episode": n,
+                          "how": "emptying one answer changed another"})
+        ctx.count("schedule-freshness-probe")
+    # the environment itself, reset past the end of the schedule (small scenarios; all in the thorough tier)
+    if env_level and not fails:
+        from primaite.session.environment import PrimaiteGymEnv
+        try:
+            env = PrimaiteGymEnv(env_config=d)
+            for ep in range(0, 2 * L + 1):
+                if ep:
+                    env.reset()
+                key = tuple(table[ep % L])
+                inv = R.inventory(env.game, assembled[key])
+                if mask_states(inv) != mask_states(reference[key]):
+                    diff = sorted(set(mask_states(inv)) ^ set(mask_states(reference[key])))
+                    fails.append({"kind": "schedule-env-build-differs", "dir": d.name, "episode": ep, "item": diff[0].split()[0],
+                                  "diff": diff[:6]})
+                    break
+                ctx.count("schedule-env-episode")
+            env.close()
+        except Exception as e:
+            fails.append(dict(_fail_of(e), kind="schedule-env-raises", dir=d.name))
     return lines, expect, fails, cfgs
 
 
@@ -213,7 +421,10 @@ def replay(rec: dict) -> bool:
     mode = rp.get("mode", "scenario")
     if mode == "office-lan":
         return not check_office_lan(rp["node_set"])
-    cfg = rp["cfg"]
+    if mode == "schedule":
+        ctx = Ctx("C20", "quick", 1)
+        return not check_schedule_dir(Path(rp["dir"]), ctx)[2]
+    cfg = rp["cfg"] if rp.get("raw_keys") else _int_keys(rp["cfg"])
     with lean_lock():
         from harness.lib.core import lake_build
         lake_build([EXE])
@@ -226,7 +437,9 @@ def replay(rec: dict) -> bool:
         pass
     fails, inv = check_scenario(cfg, out)
     if not fails and inv is not None:
-        fails = check_variants(cfg, inv, Rng(1), rp.get("digest_steps", 0))
+        fails = check_variants(cfg, inv, Rng(1), rp.get("digest_steps", 0), 3, rp.get("formats"))
+    if not fails and inv is not None and rp.get("env"):
+        fails = check_env_twice(cfg, inv)[0]
     return not fails
 
 
@@ -239,16 +452,53 @@ def _int_keys(o: Any) -> Any:
     return o
 
 
+FORMATS = ["aliases", "merge-keys", "comments", "quoted-ints"]
+
+
+def _vocabulary_gaps() -> List[str]:
+    """Software types the implementation registers that the generator's vocabulary or the live-option table does not know."""
+    import primaite.game.game as gg
+    from primaite.simulator.system.applications.application import Application
+    from primaite.simulator.system.services.service import Service
+    registered = set(gg.SERVICE_TYPES_MAPPING) | set(Application._registry)
+    gaps = [f"generator lacks {t}" for t in sorted(registered - set(G.SOFTWARE_VOCABULARY))]
+    gaps += [f"generator has unknown {t}" for t in sorted(set(G.SOFTWARE_VOCABULARY) - registered)]
+    # every option a schema declares is either generated or common
+    common = {"type", "starting_health_state", "criticality", "fixing_duration", "listen_on_ports"}
+    for t in sorted(registered & set(G.SOFTWARE_VOCABULARY)):
+        cls = R._software_class(t)
+        fields = set(cls.ConfigSchema.model_fields) - common
+        gen = set(G.SOFTWARE_VOCABULARY[t][1])
+        inherited = {"db_server_ip", "server_password"} if t == "dos-bot" else set()  # DoSBot's schema extends DatabaseClient's
+        gaps += [f"{t}: option {o} never generated" for o in sorted(fields - gen - inherited)]
+        gaps += [f"{t}: generated option {o} not in the schema" for o in sorted(gen - fields)]
+    # every (class, attribute, option) the constructors apply under ANOTHER name has a reader in LIVE_OPTIONS
+    by_class = {R._software_class(t).__name__: t for t in registered}
+    for cls, attr, opt in x_cfg._software_inits()[0]:
+        t = by_class.get(cls)
+        if t and attr != opt and opt not in R.LIVE_OPTIONS.get(t, {}):
+            gaps.append(f"{t}: option {opt} is applied to .{attr} but LIVE_OPTIONS does not read it")
+    return gaps
+
+
 def run(ctx: Ctx):
     with lean_lock():
         ctx.extract("Config", x_cfg.emit)
         ctx.prove(MODULES, exes=[EXE], leanchecker=ctx.thorough)
     ctx.cov["rule"] = ("cases = corpus witnesses + generated scenarios (families lan / routed / dmz x size 1-3 x with / without configured "
-                       "system software x optional office-lan node set) + every shipped scenario + every episode of every shipped "
-                       "schedule directory; one evaluation = one scenario loaded and its inventory diffed with the model's build and "
-                       "declared, plus one per permuted / reversed / re-serialised variant; non-trivial = the scenario has a router or "
-                       "firewall ACL, routes, configured software and at least one agent; distinct by canonical scenario JSON")
+                       "system software) + software-matrix scenarios (every configurable software type with non-default options on "
+                       "hosts declared absent/ON/OFF/BOOTING/SHUTTING_DOWN) + every shipped scenario + one per combination of files "
+                       "of every shipped schedule directory; one evaluation = one scenario loaded and its inventory (items, option "
+                       "effects read off the live objects, initial states) diffed with the model's build and declared, plus one per "
+                       "variant (permuted / reversed / re-serialised / aliases / merge keys / comments / quoted integers), per second "
+                       "build from the same mapping, per environment built from a user-held mapping, per scheduled episode built the "
+                       "way reset() does; non-trivial = the scenario has a router or firewall ACL, configured software and an agent, or "
+                       "a host that is not ON carrying configured software; distinct by canonical scenario JSON")
+    gaps = _vocabulary_gaps()
+    ctx.oblige("rig:generator vocabulary and live-option table cover every registered software type and schema option", "correspondence",
+               not gaps, "; ".join(gaps[:6]))
     cases: List[Tuple[str, Dict, int]] = []  # name, cfg, digest_steps
+    raw_corpus = set()
     # 1. corpus
     for f in sorted((VERIF / "corpus" / "C20").glob("*.json")):
         rec = json.loads(f.read_text())
@@ -258,14 +508,22 @@ def run(ctx: Ctx):
             ctx.count("corpus:office-lan")
             ctx.case(rec["node_set"], True)
             continue
-        cases.append(("corpus:" + f.name, _int_keys(rec["cfg"]), rec.get("digest_steps", 0)))
+        name = "corpus:" + f.name
+        if rec.get("raw_keys"):
+            raw_corpus.add(name)
+        cases.append((name, rec["cfg"] if rec.get("raw_keys") else _int_keys(rec["cfg"]), rec.get("digest_steps", 0)))
     # 2. generated families
     rng = ctx.rng.fork("scenarios")
-    n_gen = ctx.scale(18, 200)
+    n_gen = ctx.scale(15, 200)
     for k in range(n_gen):
         fam = G.FAMILIES[k % 3]
         cfg = G.gen_scenario(rng, size=1 + (k // 3) % 3, family=fam, shadowing=(k % 4 == 3), node_sets=False)
-        cases.append((f"gen:{k}:{fam}", cfg, ctx.scale(10, 20) if k % ctx.scale(6, 5) == 0 else 0))
+        cases.append((f"gen:{k}:{fam}", cfg, ctx.scale(10, 20) if k % ctx.scale(7, 5) == 0 else 0))
+    # 2b. software matrix: every software type x non-default options x declared operating state of the node
+    mrng = ctx.rng.fork("matrix")
+    for k in range(ctx.scale(10, 120)):
+        cfg = G.gen_software_matrix(mrng, size=1 + k % 3)
+        cases.append((f"matrix:{k}", cfg, ctx.scale(8, 16) if k % ctx.scale(5, 4) == 0 else 0))
     # 3. shipped single-file scenarios
     shipped = scen.shipped()
     for name, path in shipped.items():
@@ -286,19 +544,19 @@ def run(ctx: Ctx):
     sched_lines: List[str] = []
     sched_expect: List[str] = []
     for d in sorted(p for p in scen.PKG.iterdir() if p.is_dir() and (p / "schedule.yaml").exists()):
+        small = sum(f.stat().st_size for f in d.glob("*.yaml")) < 30000
         try:
-            lines, expect, fails, cfgs = check_schedule_dir(d, ctx)
+            lines, expect, fails, cfgs = check_schedule_dir(d, ctx, env_level=small or ctx.thorough)
         except Exception as e:
-            ctx.violation({"kind": "schedule-raises", "dir": d.name, "exc": type(e).__name__}, f"schedule {d.name}: {e}", {"dir": str(d)})
+            ctx.violation({"kind": "schedule-raises", "dir": d.name, "exc": type(e).__name__}, f"schedule {d.name}: {e}",
+                          {"mode": "schedule", "dir": str(d)})
             continue
         sched_lines += lines
         sched_expect += expect
         for fl in fails:
-            ctx.violation({"kind": fl["kind"], "dir": fl["dir"]}, f"schedule {fl}", fl)
+            ctx.violation({k: fl[k] for k in ("kind", "dir", "item", "how", "exc") if k in fl}, f"schedule {json.dumps(fl, default=str)[:600]}",
+                          {"mode": "schedule", "dir": str(d), "failure": fl})
         for nm, cfg in cfgs:
-            io = dict(cfg.get("io_settings") or {})
-            io.update(scen.QUIET_IO)
-            cfg["io_settings"] = io
             cases.append((f"scheduled:{nm}", cfg, ctx.scale(0, 8)))
     # model side, batched
     all_lines: List[str] = []
@@ -323,7 +581,9 @@ def run(ctx: Ctx):
                str(sched_bad[:2]))
     # implementation side
     agree = modelled = 0
-    for name, cfg, steps in cases:
+    env_budget = ctx.scale(8, 60)
+    f31_total = 0
+    for idx, (name, cfg, steps) in enumerate(cases):
         kind = name.split(":")[0]
         ctx.count("case:" + kind)
         mo = None
@@ -332,31 +592,62 @@ def run(ctx: Ctx):
             mo = (out[st + ln - 2], out[st + ln - 1])
             modelled += 1
             ctx.cov["traces_validated_against_impl"] += 1
-        fails, inv = check_scenario(copy.deepcopy(cfg), mo)
+        small = kind in ("gen", "matrix", "corpus") or not name.startswith(("shipped:uc7", "scheduled:uc7"))
+        fails, inv = check_scenario(cfg, mo, twice=small or ctx.thorough, ctx=ctx)
+        if small or ctx.thorough:
+            ctx.count("second-build-from-same-mapping")
+            ctx.cov["evaluations"] += 1
         summ = G.summary(cfg) if "simulation" in cfg else {}
-        nontrivial = bool(summ.get("acl_rules") and summ.get("agents") and (summ.get("services") or summ.get("applications")))
+        off_hosts = [n for n in (cfg.get("simulation", {}).get("network", {}).get("nodes") or [])
+                     if str(n.get("operating_state", "ON")).upper() not in ("ON", "TRUE") and n.get("operating_state") not in (None, "", False)
+                     and (n.get("services") or n.get("applications"))]
+        nontrivial = bool((summ.get("acl_rules") and summ.get("agents") and (summ.get("services") or summ.get("applications"))) or off_hosts)
         ctx.case({"name": name, "cfg": cfg}, nontrivial)
         for k, v in summ.items():
             if v:
                 ctx.count("has:" + k.split(":")[0])
+        if off_hosts:
+            ctx.count("has:not-ON-host-with-configured-software", len(off_hosts))
+            for n in off_hosts:
+                for e in (n.get("services") or []) + (n.get("applications") or []):
+                    ctx.count(f"software-on-{str(n['operating_state']).upper()}-node:{e['type']}")
         if inv is not None:
-            nv = 3 if (ctx.thorough or kind in ("gen", "corpus") or steps) else 1
-            vf = check_variants(cfg, inv, ctx.rng.fork(name), steps, nv)
-            ctx.cov["evaluations"] += nv
+            nv = 3 if (ctx.thorough or kind in ("gen", "corpus", "matrix") or steps) else 1
+            fmts = None
+            if kind in ("gen", "matrix") and name not in raw_corpus:
+                fmts = FORMATS if ctx.thorough else [FORMATS[idx % 4], FORMATS[(idx + 1) % 4]]
+            vf = check_variants(cfg, inv, ctx.rng.fork(name), steps, nv, fmts)
+            ctx.cov["evaluations"] += nv + len(fmts or [])
             ctx.count("variants-checked", nv)
+            for fm in fmts or []:
+                ctx.count("format-variant:" + fm)
             if steps:
                 ctx.count("digest-compared", 2)
             fails += vf
+            if kind in ("gen", "matrix") and env_budget > 0 and any(a.get("type") == "proxy-agent" for a in cfg.get("agents", [])) \
+                    and (idx % 3 == 0 or ctx.thorough):
+                env_budget -= 1
+                ef, f31 = check_env_twice(cfg, inv)
+                f31_total += f31
+                fails += ef
+                ctx.count("env-built-twice-from-user-held-mapping")
+                ctx.cov["evaluations"] += 2
         if mo is not None and not any(f["kind"] == "model-vs-impl" for f in fails):
             agree += 1
         for f in fails:
             sig = {k: f[k] for k in ("kind", "item", "cause", "exc", "where", "variant") if k in f}
             if f["kind"] == "load-raises" and f.get("exc") == "RecursionError":
                 sig["cause"] = "second-nic-linked-before-first"
-            ctx.violation(sig, f"{name}: {json.dumps({k: v for k, v in f.items()}, default=str)[:600]}",
-                          {"mode": "scenario", "cfg": cfg, "digest_steps": steps, "failure": f, "from": name})
-        if kind == "gen" and len(ctx.cov["samples"]) < 3 and inv is not None:
-            ctx.sample({"case": name, "summary": summ, "inventory_lines": len(inv), "first": inv[:3]})
+            rp = {"mode": "scenario", "cfg": cfg, "digest_steps": steps, "failure": f, "from": name}
+            if name in raw_corpus:
+                rp["raw_keys"] = True
+            if f["kind"].startswith("env-"):
+                rp["env"] = True
+            ctx.violation(sig, f"{name}: {json.dumps({k: v for k, v in f.items()}, default=str)[:700]}", rp)
+        if kind in ("gen", "matrix") and len(ctx.cov["samples"]) < 4 and inv is not None and (kind == "matrix" or len(ctx.cov["samples"]) < 2):
+            ctx.sample({"case": name, "summary": summ, "inventory_lines": len(inv), "first": inv[:3],
+                        "a_software_line": next((l for l in inv if l.startswith("sw ") and "=" in l.split(" h=")[-1]), None)})
+    ctx.count("nodes-not-in-declared-state-after-reset (F-31, not claimed)", f31_total)
     ctx.oblige("rig:R-cfg the modelled loader (Lean build) agrees with the real inventory on every modelled scenario", "correspondence",
                agree == modelled, f"{modelled - agree} of {modelled} scenarios disagree")
     # 5. office-lan node sets (Python oracle; corners included)
